@@ -70,6 +70,24 @@ _c19['c19_marked_eq_hash_ignore_span'] = {'obl': 'marked.eq-hash-ignore-span', '
     'what': 'MarkedYaml == and Hash see the data only; MarkedYamlOwned with_span does not change equality', 'tier': 'quick'}
 GROUPS['C19'] = [{'crate': 'saphyr', 'appends': {'yaml.rs': 'yaml_harness.rs'}, 'timeout': 2400, 'harness_timeout': 600, 'harnesses': _c19}]
 
+ALPHA9 = 'all byte strings of exactly that length over the 34-symbol alphabet of the property (indicators - ? : , [ { # & * ! | > \' " % @, blank, tab, line feed, digits 0 1 7, . + e x o ~ and the letters a n u l y); f64::from_str replaced by a stub of its documented grammar'
+_c09 = {
+    'c09_need_quotes_len1': {'obl': 'need_quotes.plain-is-safe.len1', 'kind': 'bounded', 'bound': 'length 1; ' + ALPHA9, 'tier': 'quick',
+        'what': 'a string that need_quotes lets through unquoted is not a core-schema null/bool/int/float literal (it reloads as the same string) and is a legal one-line plain scalar (YAML 1.2 section 7.3.3)'},
+    'c09_need_quotes_len2': {'obl': 'need_quotes.plain-is-safe.len2', 'kind': 'bounded', 'bound': 'length 2; ' + ALPHA9, 'tier': 'quick', 'what': 'same, length 2'},
+    'c09_need_quotes_len3': {'obl': 'need_quotes.plain-is-safe.len3', 'kind': 'bounded', 'bound': 'length 3; ' + ALPHA9, 'tier': 'quick', 'what': 'same, length 3'},
+    'c09_need_quotes_len4': {'obl': 'need_quotes.plain-is-safe.len4', 'kind': 'bounded', 'bound': 'length 4; ' + ALPHA9, 'tier': 'thorough', 'what': 'same, length 4'},
+    'c09_escape_len1': {'obl': 'escape_str.round-trip.len1', 'kind': 'bounded', 'bound': 'every ASCII string of length 1', 'tier': 'quick',
+        'what': 'escape_str output is a single-line double-quoted scalar that decodes (YAML 1.2 sections 5.7 / 7.3.1) to the original bytes'},
+    'c09_escape_len2': {'obl': 'escape_str.round-trip.len2', 'kind': 'bounded', 'bound': 'every ASCII string of length 2', 'tier': 'quick', 'what': 'same, length 2'},
+    'c09_escape_len3': {'obl': 'escape_str.round-trip.len3', 'kind': 'bounded', 'bound': 'every ASCII string of length 3', 'tier': 'quick', 'what': 'same, length 3'},
+}
+for w, txt in [('null', 'null'), ('null_cap', 'Null'), ('true', 'true'), ('false_up', 'FALSE'), ('octal', '0o17'), ('hex', '0x1F'),
+               ('plus_int', '+12'), ('exp', '1e3'), ('inf', '.inf'), ('plus_inf', '+.inf'), ('minus_inf', '-.INF'), ('nan', '.NaN'), ('tilde', '~')]:
+    _c09['c09_word_' + w] = {'obl': 'need_quotes.type-like-word.' + w, 'kind': 'bounded', 'bound': 'the concrete string "%s"' % txt, 'tier': 'quick',
+                             'what': 'the type-like word "%s" is quoted (or, if not, is no core-schema literal)' % txt}
+GROUPS['C09'] = [{'crate': 'saphyr', 'appends': {'emitter.rs': 'emitter_harness.rs'}, 'timeout': 3000, 'harness_timeout': 1500, 'harnesses': _c09}]
+
 CACHE = os.environ.get('VERIF_CACHE') or os.path.join(ROOT, '.cache')
 
 
